@@ -291,6 +291,12 @@ func propSequence(t *rapid.T) {
 			lp = given
 		}
 		affinePrev = true
+		if rapid.IntRange(0, 3).Draw(t, fmt.Sprintf("faulted-before%d", i)) == 0 {
+			// a call that cannot complete (recovered by the caller) comes first: whatever scratch state it
+			// left half-used must not reach the call that follows
+			trace = append(trace, lib.FaultedMultiplication(t, fmt.Sprintf("f%d", i), ls, lp))
+			rels["after-faulted-call"]++
+		}
 		rcv := secp256k1.NewIdentityPoint()
 		switch entry {
 		case "ScalarMult":
@@ -312,7 +318,7 @@ func propSequence(t *rapid.T) {
 	for r := range rels {
 		cl = append(cl, "rel:"+r)
 	}
-	stat.Case("sequence", cl, rels["lambda"]+rels["lambda^2"]+rels["neg"]+rels["neg-lambda"]+rels["same"]+rels["sibling-rep"] > 0, []byte(fmt.Sprintf("%v|%x", trace, cur.Uncompressed())), func() any {
+	stat.Case("sequence", cl, rels["lambda"]+rels["lambda^2"]+rels["neg"]+rels["neg-lambda"]+rels["same"]+rels["sibling-rep"]+rels["after-faulted-call"] > 0, []byte(fmt.Sprintf("%v|%x", trace, cur.Uncompressed())), func() any {
 		return map[string]any{"calls": trace}
 	})
 }
